@@ -29,12 +29,15 @@ type Case struct {
 	Conf   vlib.IdxConf       `json:"conf"`
 	Phases [][]vlib.BatchSpec `json:"phases"` // batches of phase 1, 2, (3)
 	Picks  []int              `json:"picks"`  // which images to continue from (index modulo #candidates)
+	// Window, if set, drives phase 1 as a gated window scenario (crash points inside an in-memory
+	// merge, a file merge or a pending snapshot write); Phases[0] is then unused
+	Window *vlib.WindowScenario `json:"window,omitempty"`
 }
 
 func gen(t *rapid.T) Case {
 	c := Case{Conf: vlib.IdxConf{Dir: "fs",
 		SegVer:    rapid.SampledFrom([]int{1, 1, 2}).Draw(t, "segVer"),
-		Unsafe:    rapid.IntRange(0, 2).Draw(t, "unsafe") == 0,
+		Unsafe:    rapid.Bool().Draw(t, "unsafe"),
 		Merge:     rapid.SampledFrom([]string{"default", "default", "pairs", "none"}).Draw(t, "merge"),
 		Retention: rapid.SampledFrom([]int{1, 1, 2, 3}).Draw(t, "retention")}}
 	g := vlib.NewHistGen(5)
@@ -60,6 +63,22 @@ func gen(t *rapid.T) Case {
 		}
 		c.Phases = append(c.Phases, bs)
 	}
+	if c.Conf.Unsafe && rapid.IntRange(0, 2).Draw(t, "window") > 0 {
+		if c.Conf.Merge == "none" {
+			c.Conf.Merge = "default"
+		}
+		w := &vlib.WindowScenario{Hold: rapid.SampledFrom(vlib.WindowHolds).Draw(t, "windowHold")}
+		for i := 0; i < 3; i++ {
+			w.Seed = append(w.Seed, g.Batch(t, 2))
+		}
+		for i, n := 0, rapid.IntRange(1, 4).Draw(t, "nWindow"); i < n; i++ {
+			w.Window = append(w.Window, g.Batch(t, 3))
+		}
+		for i, n := 0, rapid.IntRange(0, 2).Draw(t, "nAfter"); i < n; i++ {
+			w.After = append(w.After, g.Batch(t, 3))
+		}
+		c.Window = w
+	}
 	np := rapid.IntRange(2, 5).Draw(t, "nPicks")
 	for i := 0; i < np; i++ {
 		c.Picks = append(c.Picks, rapid.IntRange(0, 1<<16).Draw(t, "pick"))
@@ -68,14 +87,21 @@ func gen(t *rapid.T) Case {
 }
 
 type stats struct {
-	images, torn, fallback, deep, writerOpens, continuations, openFailedAllowed, staleTail int
+	images, torn, fallback, deep, writerOpens, continuations, openFailedAllowed, staleTail, windowParked int
 	nt                                                                                  []string
 }
 
 // runPhase executes phase d on directory dir (holding a crash image, or empty), checks all its
 // crash images, and recurses into selected images.
 func runPhase(c Case, d int, dir string, prior []vlib.BatchSpec, hadSnapshot bool, st *stats) *vlib.Failure {
-	rr, f := vlib.StartRecordedRun(c.Conf, dir, nil, nil)
+	var gates *vlib.Gates
+	var tweak func(ic index.Config, d *vlib.RecDir) index.Config
+	if d == 0 && c.Window != nil {
+		gates = vlib.NewGates()
+		tweak = vlib.WindowTweak(gates)
+		defer gates.OpenAll()
+	}
+	rr, f := vlib.StartRecordedRun(c.Conf, dir, nil, tweak)
 	if f != nil {
 		if f.Key == "open-writer-error" && !hadSnapshot {
 			st.openFailedAllowed++
@@ -107,7 +133,26 @@ func runPhase(c Case, d int, dir string, prior []vlib.BatchSpec, hadSnapshot boo
 		rec.CallErr = append(rec.CallErr, "")
 		rec.Ack = append(rec.Ack, -1) // "before everything"
 	}
-	for _, b := range c.Phases[d] {
+	phase := c.Phases[d]
+	if gates != nil {
+		phase = nil
+		parked, f := vlib.RunWindowScenario(rr, gates, *c.Window, func(b vlib.BatchSpec) *vlib.Failure {
+			if f := rr.Batch(b); f != nil {
+				return f
+			}
+			m.Apply(b)
+			return nil
+		})
+		if f != nil {
+			gates.OpenAll()
+			_ = rr.Finish(false)
+			return f
+		}
+		if parked {
+			st.windowParked++
+		}
+	}
+	for _, b := range phase {
 		if f := rr.Batch(b); f != nil {
 			_ = rr.Finish(false)
 			return f
@@ -228,7 +273,7 @@ func prop(c Case, st *stats) *vlib.Failure {
 }
 
 func TestC03Recovery(t *testing.T) {
-	vlib.Check(t, 5, 10, func(rt *rapid.T) {
+	vlib.Check(t, 8, 10, func(rt *rapid.T) {
 		c := gen(rt)
 		var st stats
 		f := vlib.Guard("run", func() *vlib.Failure { return prop(c, &st) })
@@ -237,6 +282,12 @@ func TestC03Recovery(t *testing.T) {
 			cls = append(cls, "unsafe")
 		} else {
 			cls = append(cls, "safe")
+		}
+		if c.Window != nil {
+			cls = append(cls, "window:"+c.Window.Hold)
+			if st.windowParked > 0 {
+				cls = append(cls, "window-parked:"+c.Window.Hold)
+			}
 		}
 		canon := vlib.Canon(c)
 		ev.Case(canon, false, append(cls, "trees")...)
